@@ -20,8 +20,12 @@ from .interp import Interp
 class Contract:
     def __init__(self, qualname, spec=None, pre=None, cases=None, compare=None, props=None,
                  result_eq=None, doc="", ghost_link=None, post_hook=None, use_at_calls=True,
-                 inline_pre=()):
+                 inline_pre=(), assumes_clean_cwd=False):
         self.qualname = qualname
+        # True: the contract's statement is only valid when no file of the working directory is
+        # named like a hex digest (the cwd-relative fallbacks of the object lookup); every other
+        # function is verified WITHOUT that assumption
+        self.assumes_clean_cwd = assumes_clean_cwd
         self.inline_pre = tuple(inline_pre)   # preconditions also checked where the body is inlined
         self.spec = spec
         self.pre = pre
@@ -198,7 +202,7 @@ def verify_case(eng, lib, con, case_name, make_case, monitors=(), setup=None):
         ctx.monitors = list(monitors)
         args = make_case(it)            # builds arguments + assumes the object/store invariant
         ctx.fs0, ctx.dirs0 = ctx.st.fs, ctx.st.dirs
-        ctx.assume_forall_loc(lib.typing(ctx.fs0, ctx.dirs0))
+        ctx.assume_forall_loc(lib.typing(ctx.fs0, ctx.dirs0, cwd_clean=con.assumes_clean_cwd))
         if setup:
             setup(it)
         node = eng.funcs[q]
